@@ -124,6 +124,8 @@ type SiteAssert struct {
 }
 
 type ExternDecl struct {
+	MayPanic  bool
+	PanicTags []string
 	Name     string // qualified, e.g. strings.HasPrefix or (*zap.Logger).Info
 	Kind     string // havoc | fn | noreturn
 	Params   []string
@@ -734,6 +736,13 @@ func parseExternTail(ex *ExternDecl, r2, file string, line int) error {
 			kind = "requires"
 		} else if strings.HasPrefix(r2, "modifies") {
 			kind = "modifies"
+		} else if strings.HasPrefix(r2, "maypanic") {
+			// the callee may panic on some inputs: every call has to be under a deferred recover of the calling function
+			ex.MayPanic = true
+			r2 = strings.TrimSpace(r2[len("maypanic"):])
+			ex.PanicTags, r2 = parseTags(r2)
+			r2 = strings.TrimSpace(r2)
+			continue
 		} else if strings.HasPrefix(r2, "pattern") {
 			// pattern `...` (rest of the directive up to the closing backquote)
 			r2 = strings.TrimSpace(r2[len("pattern"):])
